@@ -284,8 +284,8 @@ def check_dict(facts, chk, rule, tier):
     for L in range(0, maxl + 1):
         for ti, t in enumerate(itertools.product(alpha, repeat=L)):
             s1 = ''.join(t)
-            if tier != 'thorough' and L == 6 and ti % 6:
-                continue
+            if tier != 'thorough' and L == 6 and ti % 6 and 'N' in s1:
+                continue          # quick tier: the N-free length-6 sequences (two overlapping windows: same arms, different middle bases ..) all run, the others thinned
             for s2 in ((partners if tier == 'thorough' else partners[1:4]) if L >= 5 else partners[:2]):
                 for rc in (0, 1):
                     recs = [(s1, None)] + ([(s2, None)] if s2 else [])
@@ -358,6 +358,14 @@ def check_dict_reads(facts, chk, rule, tier):
                'bases recorded from the min_count-th observation on; min_count 1..3 x 3 filters x 3 quality patterns x 2 strand modes (%d cases)' % n, evals=n)
 
 
+def _run_dict_or_panic(*a, **kw):
+    """run_dict, with an abort of the build (e.g. "has no valid sequence") as a value: the invariance rules compare outcomes"""
+    try:
+        return run_dict(*a, **kw)
+    except Panic as p:
+        return 'build aborts (%s)' % p.kind
+
+
 def check_dict_invariance(facts, chk, rule, tier):
     """the dictionary of a sample is unchanged by record order, letter case, and (strands merged) reverse-complementing any
     record; and equals the specification - on files of 2-3 records over ACGT/N"""
@@ -367,7 +375,8 @@ def check_dict_invariance(facts, chk, rule, tier):
     n = 0
     k = 5
     base_files = [['ACCAGTCA', 'GGTNACCAG', 'TTGAC'], ['AAAAAA', 'TTTTT', 'ACGTA'], ['GATTACA', 'TGTAATC'], ['ACNNACGTTG', 'CAACG'],
-                  ['ACCGT', 'ACAGT'], ['ACAGT', 'ACGGT', 'ACCGT'], ['GACGTCA', 'GAAGTC', 'ACTGT']]      # self-reverse-complement arms seen with middle bases of different classes
+                  ['ACCGT', 'ACAGT'], ['ACAGT', 'ACGGT', 'ACCGT'], ['GACGTCA', 'GAAGTC', 'ACTGT'],      # self-reverse-complement arms seen with middle bases of different classes
+                  ['ACCAGTCA', 'ACG', 'TTGACCA'], ['GT', 'GGTNACCAG', 'NNNN', 'CCAGTT']]                 # records shorter than k / without any window between the others
     if tier == 'thorough':
         base_files += [['ACGTACGTAC', 'GTACG', 'CCCCCG'], ['AGAGAGA', 'TCTCT', 'GANTC']]
 
@@ -375,7 +384,7 @@ def check_dict_invariance(facts, chk, rule, tier):
         return ''.join({'A': 'T', 'C': 'G', 'G': 'C', 'T': 'A', 'N': 'N'}[c] for c in reversed(s))
     for recs in base_files:
         for rc in (0, 1):
-            ref = run_dict(facts, {'f1': ('fasta', [('r%d' % i, s, None) for i, s in enumerate(recs)])}, k, rc)
+            ref = _run_dict_or_panic(facts, {'f1': ('fasta', [('r%d' % i, s, None) for i, s in enumerate(recs)])}, k, rc)
             n += 1
             if ref != spec_dict([(s, None) for s in recs], k, rc):
                 bad.append((recs, rc, 'differs from the specification', ref))
@@ -388,9 +397,9 @@ def check_dict_invariance(facts, chk, rule, tier):
             for what, v in variants:
                 n += 1
                 if what == 'two files':
-                    got = run_dict(facts, {'f1': ('fasta', [('a', recs[0], None)]), 'f2': ('fasta', [('r%d' % i, s, None) for i, s in enumerate(recs[1:])])}, k, rc, second=True)
+                    got = _run_dict_or_panic(facts, {'f1': ('fasta', [('a', recs[0], None)]), 'f2': ('fasta', [('r%d' % i, s, None) for i, s in enumerate(recs[1:])])}, k, rc, second=True)
                 else:
-                    got = run_dict(facts, {'f1': ('fasta', [('r%d' % i, s, None) for i, s in enumerate(v)])}, k, rc)
+                    got = _run_dict_or_panic(facts, {'f1': ('fasta', [('r%d' % i, s, None) for i, s in enumerate(v)])}, k, rc)
                 if got != ref:
                     bad.append((recs, rc, what + ' changed the dictionary: %s' % v, got))
     if bad:
